@@ -354,6 +354,28 @@ func (x *Exec) libModel(fn *ssa.Function, pkg, short, name string, args []Value,
 				return &TupleV{E: []Value{c.Const(64, uint64(int64(n))), e}}, nil, true
 			}
 			return x.atoiSym(args[0].(*StrV)), nil, true
+		case "strconv.ParseBool":
+			if allKnown(0) {
+				b, err := strconv.ParseBool(ks(args[0]))
+				var e Value = &IfaceV{}
+				if err != nil {
+					e = &IfaceV{T: errT, V: x.opaqueString()}
+				}
+				return &TupleV{E: []Value{c.Bool(b), e}}, nil, true
+			}
+			{
+				sv := args[0].(*StrV)
+				isT, isF := c.False, c.False
+				for _, lit := range []string{"1", "t", "T", "TRUE", "true", "True"} {
+					isT = c.Or(isT, x.strEq(sv, &StrV{Known: true, S: lit}))
+				}
+				for _, lit := range []string{"0", "f", "F", "FALSE", "false", "False"} {
+					isF = c.Or(isF, x.strEq(sv, &StrV{Known: true, S: lit}))
+				}
+				x.modeled["strconv.ParseBool(symbolic): the twelve literals of the Go documentation"]++
+				ok := c.Or(isT, isF)
+				return &TupleV{E: []Value{isT, &IfaceGV{G: ok, A: &IfaceV{}, B: &IfaceV{T: errT, V: x.opaqueString()}}}}, nil, true
+			}
 		case "strconv.ParseInt":
 			if b, ok := args[1].(*Term); ok && b.IsConst() && b.K == 10 {
 				if bs, ok := args[2].(*Term); ok && bs.IsConst() && bs.K == 64 {
